@@ -98,7 +98,7 @@ pub fn run(tier: Tier) -> i32 {
             }
         }
     }
-    let st = par_explore(tasks.len(), |ti, st| {
+    let mut st = par_explore(tasks.len(), |ti, st| {
         let (ki, set) = &tasks[ti];
         let (kind, letter, with_t) = kinds[*ki];
         let m = menu(letter, with_t);
@@ -200,7 +200,8 @@ pub fn run(tier: Tier) -> i32 {
             st.sample(json!({"feature.def": def, "rows": inputs.len(), "distinct_strings": seen.len()}));
         }
     });
-    rep.rule = format!("state = (template set of 1-{} templates from a 12-template menu per kind (unigram %F/%F?/%t, left %L/%L?, right %R/%R?), all feature rows of length 0-3 over {{a,b,*,\"p,q\"}} x category id in {{0,3}} fed in sequence to one extractor); every expansion must be the string the reference expander produces (absent feature -> '*', optional reference on '*'/absent -> no feature), equal strings share an id, different strings never do, and the interned table agrees; distinct = distinct id tables. The connection-class half of C18 is checked on trained models by the C14 machinery and reported there", tier.pick(2, 3));
+    crate::props::train::dict_level_c18(tier, &mut st);
+    rep.rule = format!("state = (template set of 1-{} templates from a 12-template menu per kind (unigram %F/%F?/%t, left %L/%L?, right %R/%R?), all feature rows of length 0-3 over {{a,b,*,\"p,q\"}} x category id in {{0,3}} fed in sequence to one extractor); every expansion must be the string the reference expander produces (absent feature -> '*', optional reference on '*'/absent -> no feature), equal strings share an id, different strings never do, and the interned table agrees; distinct = distinct id tables. Dictionary level: for every really trained model of the C14 family, words whose reference (rewritten) %R / %L expansion tuples coincide share a left / right id, and the tuple listed for that id in bigram.left / bigram.right equals the expansion position by position or is *", tier.pick(2, 3));
     rep.bounds = json!({"templates_per_set": tier.pick(2, 3), "menu": 12, "rows": inputs.len()});
-    rep.finish(st, &["expansions_checked", "optional_reference_suppressed_the_feature"])
+    rep.finish(st, &["expansions_checked", "optional_reference_suppressed_the_feature", "models_trained", "rows_sharing_a_connection_class", "listed_context_features_compared"])
 }
